@@ -30,15 +30,60 @@ class World:
         return "len=%d %r" % (self.len, self.bytes)
 
 
-def worlds(max_len, positions):
-    """every combination of a length 0..max_len and, for each tested position, one of its representative values"""
+def byte_constants(term):
+    """byte values a term could compare input bytes with: its small integer constants (and their neighbours), the bytes of its
+    wider integer constants and of its string/byte literals"""
+    out = set()
+
+    def walk(t):
+        if isinstance(t, tuple) and t:
+            if t[0] == "c" and len(t) >= 2:
+                v = t[1]
+                if isinstance(v, bool):
+                    return
+                if isinstance(v, int):
+                    if 0 <= v <= 255:
+                        out.update({v, (v - 1) & 0xFF, (v + 1) & 0xFF})
+                    elif -2 ** 63 <= v < 2 ** 64:
+                        out.update((v & (2 ** 64 - 1)).to_bytes(8, "big"))
+                elif isinstance(v, str):
+                    out.update(v.encode("utf-8", "replace"))
+                elif isinstance(v, bytes):
+                    out.update(v)
+                return
+            if t[0] in ("lit", "bytes") and len(t) > 1 and isinstance(t[1], (str, bytes)):
+                out.update(t[1].encode() if isinstance(t[1], str) else t[1])
+            for x in t:
+                if isinstance(x, tuple):
+                    walk(x)
+    walk(term)
+    return out
+
+
+def worlds(max_len, positions, term=None):
+    """every combination of a length 0..max_len and, for each tested position, one of its representative values. With `term`
+    (the code's value under analysis), every position additionally takes, one at a time, the boundary bytes 00/7F/80/FF and
+    every byte constant occurring in the term: a dependence of the code on a byte, or on a property of a byte, that the
+    specification ignores then shows as a disagreement on some world."""
     import itertools
     idx = sorted(positions)
     out = []
+    alts = None
+    if term is not None:
+        alts = sorted(({0x00, 0x7F, 0x80, 0xFF} | byte_constants(term)) - {FILL})
     for n in range(max_len + 1):
         live = [i for i in idx if i < n]
         for combo in itertools.product(*[positions[i] for i in live]):
-            out.append(World(n, dict(zip(live, combo))))
+            fixed = dict(zip(live, combo))
+            out.append(World(n, fixed))
+            if alts:
+                for p in range(n):
+                    for a in alts:
+                        if a in positions.get(p, ()):
+                            continue
+                        f2 = dict(fixed)
+                        f2[p] = a
+                        out.append(World(n, f2))
     return out
 
 
